@@ -175,6 +175,7 @@ structure World where
   ne : Nat := 0                      -- events are 0 … ne-1
   ni : Nat := 0                      -- instances are 0 … ni-1
   now : Nat := 0
+  stack : List IId := []             -- ghost: handler instances that exist and are not finished, innermost first
   waiter : Nat → WSt := fun _ => .idle -- external tasks
   nx : Nat := 0                      -- external tasks are 0 … nx-1
 
@@ -193,6 +194,7 @@ def World.setNow (w : World) (t : Nat) : World := { w with now := t }
 def World.setNb (w : World) (n : Nat) : World := { w with nb := n }
 def World.setNe (w : World) (n : Nat) : World := { w with ne := n }
 def World.setNi (w : World) (n : Nat) : World := { w with ni := n }
+def World.setStack (w : World) (l : List IId) : World := { w with stack := l }
 def World.setWaiter (w : World) (x : Nat) (s : WSt) : World :=
   { w with waiter := fun x' => if x' = x then s else w.waiter x', nx := max w.nx (x + 1) }
 
